@@ -300,6 +300,15 @@ func (s *InmemStore) Reset(frame *Frame) error {
 	//Set Roots from Frame
 	s.roots = frame.Roots
 
+	// Work on a copy of the map: participants added below (SetPeerSet) get an
+	// empty Root, which must not be inserted into the Frame itself (the Frame is
+	// cached, persisted and served to other nodes; its hash is in the Block).
+	roots := make(map[string]*Root, len(frame.Roots))
+	for p, r := range frame.Roots {
+		roots[p] = r
+	}
+	s.roots = roots
+
 	for round, ps := range frame.PeerSets {
 		if err := s.SetPeerSet(round, peers.NewPeerSet(ps)); err != nil {
 			return err
